@@ -307,6 +307,7 @@ let storage_handlers = [
   ("snapcheck", (fun _ -> emit "snapcheck ok"));
   ("par", (fun _ -> tainted_ref := true; hard_taint := true; emit "*"));
   ("powercut", (fun _ -> tainted_ref := true; hard_taint := true; emit "*"));
+  ("GF", (fun _ -> emit "*"));      (* Storage::get_filter: judged by the oracle only (a stored key is never "no") *)
   ("cancel", (fun _ -> tainted_ref := true; hard_taint := true; emit "*"));
   ("fail", (fun _ -> tainted_ref := true; hard_taint := true; emit "fail armed"));  (* the L3 model has no faults: wildcard from here *)
   ("clearfail", (fun _ -> emit "clearfail"));
